@@ -372,8 +372,107 @@ impl<'a, 'c> Gen<'a, 'c> {
         self.fresh_expr(ty, 2)
     }
 
+    /// Starlark-only forms (profile `full`): optimiser targets such as type()/isinstance()/len()
+    /// specialisations, f-strings, structs, floats, constant conditions, speculative-exec builtins.
+    fn full_expr(&mut self, ty: &Ty, d: u32, flow: bool) -> Option<String> {
+        match ty {
+            Ty::Bool => Some(match self.ch.below(5) {
+                0 => {
+                    let t = self.gen_ty(1);
+                    let a = self.expr(&t, d, true);
+                    let tn = konst(str_lit(self.ch.pick_s(&["int", "string", "list", "bool", "NoneType", "dict", "tuple"])));
+                    format!("({}({a}) == {tn})", callee("type"))
+                }
+                1 => {
+                    let t = self.gen_ty(1);
+                    let a = self.expr(&t, d, true);
+                    let tn = *self.ch.pick(&["int", "str", "list", "bool", "dict", "tuple", "int | str", "list[int]"]);
+                    format!("{}({a}, {tn})", callee("isinstance"))
+                }
+                2 => {
+                    let a = self.expr(&Ty::Int, d, true);
+                    let b = self.small_int_lit(1, 9);
+                    format!("(({a} / {b}) > {})", konst("0.5".into()))
+                }
+                3 => {
+                    let a = self.expr(&Ty::Str, d, true);
+                    format!("{}({a}, {})", callee("hasattr"), konst(str_lit(self.ch.pick_s(&["upper", "nope", "append"]))))
+                }
+                _ => {
+                    let a = self.expr(&Ty::Int, d, true);
+                    format!("(struct(a = {a}, b = {}).a == {})", konst("2".into()), konst("2".into()))
+                }
+            }),
+            Ty::Str => Some(match self.ch.below(6) {
+                0 => {
+                    // f-string over simple variables
+                    let vars = self.vars_of(&Ty::Int);
+                    if vars.is_empty() {
+                        return None;
+                    }
+                    let v = vars[self.ch.idx(vars.len())].name.clone();
+                    let conv = *self.ch.pick(&["", "!r", "!s"]);
+                    format!("f\"<{{{v}{conv}}}|{{{v}}}>\"")
+                }
+                1 => {
+                    let t = self.gen_ty(1);
+                    let a = self.expr(&t, d, flow);
+                    format!("{}({a})", callee("repr"))
+                }
+                2 => {
+                    let t = self.gen_ty(1);
+                    let a = self.expr(&t, d, flow);
+                    format!("{}({a})", callee("str"))
+                }
+                3 => {
+                    let t = self.gen_ty(1);
+                    let a = self.expr(&t, d, flow);
+                    format!("({} % ({a},))", konst(str_lit(self.ch.pick_s(&["%s", "<%r>", "%s!"]))))
+                }
+                4 => {
+                    let t = self.gen_ty(1);
+                    let a = self.expr(&t, d, flow);
+                    format!("{}.format({a})", konst(str_lit(self.ch.pick_s(&["{}", "<{!r}>", "{0}{0}"]))))
+                }
+                _ => {
+                    let a = self.expr(&Ty::Int, d, true);
+                    format!("{}(struct(x = {a}, y = {}))", callee("str"), konst(str_lit("s")))
+                }
+            }),
+            Ty::Int => Some(match self.ch.below(4) {
+                0 => {
+                    let a = self.expr(&Ty::Int, d, flow);
+                    let b = self.small_int_lit(1, 9);
+                    format!("{}({a} / {b})", callee("int"))
+                }
+                1 => {
+                    let s = self.str_const(false);
+                    format!("{}({s})", callee("hash"))
+                }
+                2 => {
+                    let t = self.sized_ty();
+                    let a = self.fresh_expr(&t, 1);
+                    format!("{}({a})", callee("len"))
+                }
+                _ => {
+                    let a = self.expr(&Ty::Int, d, flow);
+                    let c = konst((*self.ch.pick(&["True", "False", "1 == 1", "not True"])).to_owned());
+                    let b = self.expr(&Ty::Int, d, flow);
+                    format!("({a} if {c} else {b})")
+                }
+            }),
+            _ => None,
+        }
+    }
+
     fn expr_inner(&mut self, ty: &Ty, depth: u32, flow: bool) -> String {
         let d = depth + 1;
+        if self.full() && self.ch.chance(1, 6) {
+            if let Some(e) = self.full_expr(ty, d, flow) {
+                self.label("full_form");
+                return e;
+            }
+        }
         match ty {
             Ty::Int => match self.ch.weighted(&[8, 6, 3, 3, 2, 2, 2, 2, 2, 1, 2, 1, 1]) {
                 0 => self.leaf(ty, flow),
@@ -1080,7 +1179,13 @@ impl<'a, 'c> Gen<'a, 'c> {
                 self.line(kw);
                 self.indent -= 1;
             }
-            _ => self.stmt_unpack(),
+            _ => {
+                if self.full() && self.ch.chance(1, 3) {
+                    self.stmt_const_if()
+                } else {
+                    self.stmt_unpack()
+                }
+            }
         }
     }
 
@@ -1470,9 +1575,61 @@ impl<'a, 'c> Gen<'a, 'c> {
         }
     }
 
+    /// `def f(p, q): return <expr over p, q and constants>` — the shape the optimiser inlines.
+    fn stmt_tiny_def(&mut self) {
+        self.label("tiny_def");
+        let name = self.fresh("f");
+        let np = self.ch.idx(3);
+        let ret = if self.ch.bool() { Ty::Int } else { self.gen_ty(1) };
+        let mut params: Vec<(String, Ty, Option<String>)> = Vec::new();
+        for _ in 0..np {
+            let t = if self.ch.bool() { ret.clone() } else { self.gen_ty(1) };
+            params.push((self.fresh("p"), t, None));
+        }
+        let sig: Vec<String> = params.iter().map(|p| p.0.clone()).collect();
+        self.line(&format!("def {name}({}):", sig.join(", ")));
+        let mut scope = Scope { kind: ScopeKind::Def, vars: Vec::new(), funcs: Vec::new(), locked: Vec::new(), loop_depth: 0, ret: Some(ret.clone()) };
+        for (n, t, _) in &params {
+            scope.vars.push(Var { name: n.clone(), ty: t.clone(), group: 0, own: false });
+        }
+        // only parameters and constants are visible in the body
+        let saved = std::mem::replace(&mut self.scopes, vec![scope]);
+        self.indent += 1;
+        let e = self.expr(&ret, 1, true);
+        self.line(&format!("return {e}"));
+        self.indent -= 1;
+        self.scopes = saved;
+        let f = Func { name, params, ret: ret.clone(), star_args: None, recursive_depth: false };
+        self.scope().funcs.push(f.clone());
+        let ncalls = 1 + self.ch.idx(2);
+        for _ in 0..ncalls {
+            // arguments: constants (inlining candidates) or arbitrary expressions
+            let args: Vec<String> = f.params.iter().map(|(_, t, _)| if self.ch.bool() { self.fresh_expr(t, 2) } else { self.expr(t, 2, !t.is_sized()) }).collect();
+            self.label("call");
+            self.line(&format!("emit({}({}))", callee(&f.name), args.join(", ")));
+        }
+    }
+
+    /// `if <constant condition>:` — dead-branch removal target.
+    fn stmt_const_if(&mut self) {
+        self.label("const_if");
+        let c = konst((*self.ch.pick(&["True", "False", "1 == 1", "not True", "0", "\"\"", "[]", "1 < 2", "None"])).to_owned());
+        self.line(&format!("if {c}:"));
+        let n = self.body_len();
+        self.with_block(n);
+        if self.ch.bool() {
+            self.line("else:");
+            let n = self.body_len();
+            self.with_block(n);
+        }
+    }
+
     fn stmt_def(&mut self) {
         if self.scopes.len() >= 3 || self.indent >= 4 {
             return self.stmt_emit();
+        }
+        if self.full() && self.ch.chance(1, 3) {
+            return self.stmt_tiny_def();
         }
         self.label("def");
         let name = self.fresh("f");
